@@ -126,6 +126,7 @@ def one_run(case, corners, mesh=None):
         out["exception"] = "%s: %s" % (type(ex).__name__, msg[:200])
         return out
     out["status"] = "ok"
+    out["_worker"] = t
     out["free"] = [int(v) for v in mesh.interior_vertices]
     if case["mode"] == "custom":
         out["bnd"] = [int(v) for v in mesh.boundary_vertices]
@@ -181,6 +182,19 @@ def run_sequence(case):
             steps.append(run_case(view, mesh))
         except Exception as ex:
             steps.append({"status": "error:driver %s: %s" % (type(ex).__name__, str(ex)[:300])})
+    # a finished embedding keeps ITS result: re-read the outputs of every earlier step after the later ones ran
+    for k, stp in enumerate(steps):
+        ws = stp.pop("_workers", None)
+        if not ws or k == len(steps) - 1 or stp.get("status") != "ok":
+            continue
+        try:
+            tv, tc = ws
+            lv = [[float(tv.uvs[i][0]), float(tv.uvs[i][1])] for i in range(len(stp["uv_vertex"]))]
+            lc = [[float(tc.uvs[i][0]), float(tc.uvs[i][1])] for i in range(len(stp["uv_corner"]))]
+            if lv != stp["uv_vertex"] or lc != stp["uv_corner"]:
+                stp["late"] = {"uv_vertex": lv, "uv_corner": lc}
+        except Exception as ex:
+            stp["late"] = {"error": "%s: %s" % (type(ex).__name__, str(ex)[:200])}
     return {"status": "seq", "steps": steps}
 
 
@@ -205,6 +219,8 @@ def run_case(case, mesh=None):
     o.update(free=a["free"], bnd=a["bnd"], uv_vertex=a["uv"], uv_corner=b["uv"], flat_vertex=a["flat"],
              flat_corner=b["flat"], corner_vertex=a["corner_vertex"], faces_seen=a["faces_seen"],
              verts_after=b["verts_after"], call=a.get("call"))
+    if mesh is not None:
+        o["_workers"] = (a.get("_worker"), b.get("_worker"))
     if "custom_rows" in a:
         o["custom_rows"] = a["custom_rows"]
         o["custom_after"] = b.get("custom_after")
@@ -219,6 +235,10 @@ def main():
     import warnings
     warnings.filterwarnings("ignore")
     obs = [run_case(c) for c in payload["cases"]]
+    for o in obs:
+        for st in [o] + list(o.get("steps", [])):
+            st.pop("_workers", None)
+            st.pop("_worker", None)
     print("@@JSON " + json.dumps({"obs": obs}))
 
 
